@@ -1,0 +1,48 @@
+//go:build verif
+
+package heur
+
+import (
+	. "github.com/paulsonkoly/chess-3/chess"
+)
+
+// This file is only compiled with the `verif` build tag. It exposes a digest
+// of the move ordering stores to the verification harness in /verif and adds
+// no behaviour.
+
+// VerifDigest is an FNV-1a style digest over all history stores of mr.
+func (mr *MoveRanker) VerifDigest() uint64 {
+	h := uint64(14695981039346656037)
+	mix := func(v Score) {
+		h ^= uint64(uint16(v))
+		h *= 1099511628211
+	}
+	for c := range mr.history.data {
+		for f := range mr.history.data[c] {
+			for _, v := range mr.history.data[c][f] {
+				mix(v)
+			}
+		}
+	}
+	for a := range mr.captHist.data {
+		for b := range mr.captHist.data[a] {
+			for _, v := range mr.captHist.data[a][b] {
+				mix(v)
+			}
+		}
+	}
+	for _, cont := range mr.continuations {
+		for c := range cont.data {
+			for p := range cont.data[c] {
+				for s := range cont.data[c][p] {
+					for q := range cont.data[c][p][s] {
+						for _, v := range cont.data[c][p][s][q] {
+							mix(v)
+						}
+					}
+				}
+			}
+		}
+	}
+	return h
+}
